@@ -75,15 +75,21 @@ func driveC01(o opts) error {
 	if o.n > 0 {
 		ncases = o.n
 	}
-	sc := c02Schema()
-	sc.Name = "C01"
-	for i := range sc.Tables[0].Cols {
-		if sc.Tables[0].Cols[i].Name == "w1" {
-			sc.Tables[0].Cols[i].Min = 0 // fewer commit-time rejections than in the C02 schema
+	scBase := c02Schema()
+	scBase.Name = "C01"
+	for i := range scBase.Tables[0].Cols {
+		if scBase.Tables[0].Cols[i].Name == "w1" {
+			scBase.Tables[0].Cols[i].Min = 0 // fewer commit-time rejections than in the C02 schema
 		}
 	}
-	sc.Tables[0].Indexes = nil
-	for ci := 0; ci < ncases; ci++ {
+	scBase.Tables[0].Indexes = nil
+	// after the regular cases: cascade cases (c07chain.go), a quarter as many
+	for ci := 0; ci < ncases+(ncases+3)/4; ci++ {
+		cascade := ci >= ncases
+		sc := scBase
+		if cascade {
+			sc = cascadeSchema("C01")
+		}
 		lab, err := newSrvLab(sc, o.out)
 		if err != nil {
 			return err
@@ -96,7 +102,7 @@ func driveC01(o opts) error {
 		// of the schema; monitors without a field list still ask for every column of the schema
 		cdb := lab.db
 		hidden := map[string]bool{}
-		if g.Chance(0.3) {
+		if g.Chance(0.3) && !cascade {
 			for _, cn := range []string{"n", "ss", "m", "bs"} {
 				if g.Chance(0.4) {
 					hidden[cn] = true
@@ -121,6 +127,9 @@ func driveC01(o opts) error {
 			return fmt.Errorf("connect: %v", err)
 		}
 		nt := 2 + g.Intn(ntxn-1)
+		if cascade && nt < 4 {
+			nt = 4
+		}
 		// one or two monitors on disjoint tables
 		tabs := g.R.Perm(len(sc.Tables))
 		nm := 1 + g.Intn(3)
@@ -181,6 +190,10 @@ func driveC01(o opts) error {
 		tg := &txnGen{g: g, sc: sc, state: map[string]map[string]map[string]val.Val{}, pool: 6, pSelect: 0.05, pWait: 0.02, pInvalid: 0.08, dangling: 0.03, pBounded: 0.12}
 		st, _, _ := lab.state()
 		tg.state = st
+		if cascade {
+			tg.custom, tg.pCustom = c04ChainTxn, 0.5
+			w.Count("cascade cases")
+		}
 		oracle := ""
 		fail := func(format string, a ...interface{}) {
 			if oracle == "" {
@@ -282,7 +295,11 @@ func driveC01(o opts) error {
 				return err
 			}
 			ops := tg.txn(4)
-			if ti == 0 {
+			if cascade && ti == 0 {
+				ops = cascadeSeed(tg)
+			} else if cascade && ti == 1+ci%2 {
+				ops = cascadeRelease(tg, ci/2)
+			} else if ti == 0 {
 				// populate: a few rows in every table, children referenced by parents
 				ops = nil
 				for i := 0; i < 3; i++ {
@@ -454,7 +471,7 @@ func driveC01(o opts) error {
 		w.Add(emit.Case{Term: term, JSON: map[string]interface{}{"monitors": monJ, "transactions": txnJ}, Key: term,
 			Nontrivial: nontrivial, Class: fmt.Sprintf("mons%d", nm), Oracle: oracle})
 	}
-	known, err := c01Witnesses(o, sc)
+	known, err := c01Witnesses(o, scBase)
 	if err != nil {
 		return err
 	}
